@@ -5,6 +5,7 @@ VERUS_UNITS = {
     'sketch': dict(template='contracts/sketch.rs', props=['C14', 'C08', 'C13'], rlimit=30),
     'config': dict(template='contracts/config.rs', props=['C17', 'C05', 'C06', 'C08'], rlimit=30),
     'sync_admit': dict(template='contracts/sync_admit.rs', props=['C12', 'C13', 'C04', 'C08'], rlimit=30),
+    'sync_maint': dict(template='contracts/sync_maint.rs', props=['C03', 'C04', 'C05', 'C08', 'C10', 'C11', 'C12', 'C13'], rlimit=30),
     'sync': dict(template='contracts/sync.rs', props=['C01', 'C03', 'C04', 'C05', 'C06', 'C07', 'C08', 'C10', 'C17'], rlimit=30),
     'udeques': dict(template='contracts/udeques.rs', props=['C01', 'C03', 'C05', 'C07', 'C08', 'C10', 'C11', 'C12', 'C13', 'C17'], rlimit=30),
     'unsync': dict(template='contracts/unsync.rs', props=['C01', 'C03', 'C04', 'C05', 'C06', 'C07', 'C08', 'C10', 'C11', 'C12', 'C13', 'C14', 'C15', 'C17'], rlimit=50),
@@ -66,13 +67,13 @@ NOT_APPLICABLE = {
     'C16': 'exactly-once iteration is the contract of std HashMap / dashmap iterators (dependencies, assumed not verified) and of schedules; the only repository code on that path, the expiry filter is_expired_entry, is decided under C05/C06',
 }
 
-_UNS = 'single-threaded cache (src/unsync/cache.rs) only; the concurrent cache mutates shared state through &self (atomics, Mutex, DashMap), which neither back end can frame: not covered. '
-_ENV = 'Assumed contracts (trusted): std HashMap as a map view, the raw-pointer Deque/Deques layer as sequence views (checked separately by bounded Kani harnesses), Instant/Duration arithmetic, a pure weigher, key identity through Hash/Eq/Borrow coherence, fewer than 2^32 entries, one named clock reading per operation.'
+_UNS = 'Proof level holds for the single-threaded cache (src/unsync/cache.rs, src/unsync/deques.rs). The concurrent cache mutates shared state through &self (atomics, Mutex, DashMap), which neither back end can frame: of it only leaf predicates, counter arithmetic, the lookup composition and (quiescent case) Inner::admit are under contract; its maintenance is exercised by the bounded runtime stand-in rt_sync in sequential histories only, schedules are not covered. '
+_ENV = 'Assumed contracts (trusted): std HashMap as a map view; common/deque.rs (raw pointers) as a sequence view, checked separately by complete single-operation Kani window harnesses and bounded sequences; unsync/deques.rs and the ValueEntry accessors are PROVED against that view in unit udeques, the cache unit uses their contracts; Instant/Duration arithmetic, std::cmp::min/max, a pure weigher, key identity through Hash/Eq/Borrow coherence, fewer than 2^32 entries, one named clock reading per operation.'
 
 CLAIMS = {
     'C01': dict(technique='Verus contracts on the extracted unsync insert/get/contains_key/invalidate* functions + relational lemmas',
                 text='every lookup answer is specified as a function of the map view (value of the resident binding, absent after invalidate*) and proved for all keys, hashers, weights, capacities and clock readings',
-                note=_UNS + _ENV + ' invalidate_entries_if and iteration are outside reach (iterator adapters).'),
+                note=_UNS + _ENV + ' invalidate_entries_if and iteration are outside reach of Verus (iterator adapters): bounded runtime stand-in only.'),
     'C03': dict(technique='Verus contracts: free-space branch of handle_insert, frame clauses of the housekeeping functions, weight invariant',
                 text='an insert that fits is proved to add the entry and remove nobody; housekeeping is proved to remove nothing when within capacity and without expiry; counters proved exact so room is never under-estimated',
                 note=_UNS + _ENV + ' Gap: that an entry purged by the expiry scan is really expired relies on the node/entry timestamp coupling (raw pointer), which the ownership-sound model cannot state.'),
@@ -87,7 +88,7 @@ CLAIMS = {
                 note=_UNS + _ENV + ' iteration takes &self and cannot write (type system).'),
     'C07': dict(technique='Verus contracts on unsync invalidate / invalidate_all',
                 text='invalidate(k) is proved to remove exactly the binding of k from what housekeeping left, invalidate_all to empty map and lists; only insert adds keys',
-                note=_UNS + _ENV + ' invalidate_entries_if is outside reach of Verus (iterator adapter chain): regression replay only.'),
+                note=_UNS + _ENV + ' invalidate_entries_if is outside reach of Verus (iterator adapter chain): bounded runtime stand-in (rt_unsync) only, never counted as proved.'),
     'C08': dict(technique='Verus built-in obligations (overflow, index, unwrap/expect/panic reachability) on every function under contract; Kani pointer checks on the list layer',
                 text='no arithmetic overflow, out-of-range index or reachable internal panic in any function under contract for all inputs satisfying the invariant',
                 note=_UNS + _ENV + ' Raw-pointer list sequences are bounded Kani stand-ins, not proofs; sync maintenance, Drop and invalidate_entries_if are not covered.'),
@@ -109,7 +110,7 @@ CLAIMS = {
     'C17': dict(technique='Verus pass-through contracts on builders, Policy, with_everything and policy(); Kani complete proofs of the 1000-year guard (both directions) and of weigh',
                 text='every builder setter is proved to set exactly its knob and keep the others, build/build_with_hasher to hand the five knobs unchanged to with_everything, with_everything (unsync, real text) to store them and start empty whatever initial_capacity is, policy() to report the stored values; ensure_expirations_or_panic returns iff both durations <= 1000 years (all Durations); weigh(None) == 1',
                 note='the concurrent cache constructor chain (BaseCache::new, Inner::new) is assumed, Inner::policy is proved; the weigher(..) setters (dyn Fn boxing) are rejected by Verus and not under contract; new(n) == builder().max_capacity(n).build() follows from identical postconditions up to the unspecified RandomState::default(). ' + _ENV),
-    'C15': dict(technique='Verus frame contract: contains_key leaves exactly the state the housekeeping prefix leaves',
-                text='contains_key is proved to change nothing beyond the housekeeping every operation starts with: same estimator, same recency order of survivors, same timestamps',
-                note=_UNS + _ENV + ' iter takes &self (no interior mutability in the unsync cache).'),
+    'C15': dict(technique='Verus frame contract: contains_key leaves exactly the state the housekeeping prefix leaves; lemma that this housekeeping leaves no trim work behind; bounded metamorphic runtime check of the statement itself',
+                text='contains_key is proved to change nothing beyond the housekeeping every operation starts with: same estimator, same recency order of survivors, same timestamps, and (fewer residents than one batch) no surplus left, so the next operation trims nothing more',
+                note=_UNS + _ENV + ' iter takes &self (no interior mutability in the unsync cache). The relational (two-run) statement is not a function contract: it is checked literally only by the bounded metamorphic runtime stand-in, which reports the known finding KF-C15-1 (an extra contains_key trims a pending update surplus earlier than the history without it).'),
 }
